@@ -327,7 +327,7 @@ func C20() int {
 	}
 	c.Set("server_behaviours", bn)
 	c.Set("key_supply_modes", c20Supplies)
-	c.Set("race_reports", s.RaceReports())
+	raceVerdict(s, c)
 	if c.Counter("cli_runs") < 150 || c.Counter("requests_logged") < 300 {
 		c.Inconclusive("too few runs / requests")
 	}
